@@ -33,7 +33,9 @@ func (c08) Assumptions() []string {
 func (c08) Gen(rng *rand.Rand, tier string, i int) *sim.Scenario {
 	switch k := i % 20; {
 	case k < 7: // silence / noise / flood
-		o := &wireOpts{variants: AllVariants, bigTTL: 0.03, silentProb: 0.9, noDest: 0.8, garbage: 1}
+		// (look-alikes of genuine replies, one field off, count as irrelevant traffic too: they include
+		// replies quoting a TTL that has not been probed yet)
+		o := &wireOpts{variants: AllVariants, bigTTL: 0.03, silentProb: 0.9, noDest: 0.8, garbage: 1, adversarial: 2}
 		wr := genWireRun(rng, o, 0, "c0")
 		sc := scenarioFor("C08", rng, []*wireRun{wr})
 		span := int64(wr.call.TimeoutMs) * 1000 * int64(1+wr.call.MaxTTL-wr.call.MinTTL)
@@ -425,6 +427,21 @@ func (c18) Gen(rng *rand.Rand, tier string, i int) *sim.Scenario {
 			}
 			sc.HTTP = append(sc.HTTP, sim.HTTPPlan{Provider: p, Script: script})
 		}
+		if chance(rng, 0.12) {
+			// the first k providers use up their whole budget (they hang, or fail retryably over and over);
+			// the next one answers: it must still be asked, however much time the others took
+			k := between(rng, 1, 4)
+			for p := 0; p < k; p++ {
+				if chance(rng, 0.7) {
+					sc.HTTP[p].Script = []string{pick(rng, "stallBeforeHeaders", "stallAfterHeaders")}
+				} else {
+					for j := range sc.HTTP[p].Script {
+						sc.HTTP[p].Script[j] = pick(rng, "refuse", "closeEarly", fmt.Sprintf("status:%d:busy", serverStatus(rng)))
+					}
+				}
+			}
+			sc.HTTP[k].Script = []string{fmt.Sprintf("status:200:198.51.100.%d\n", 201+k)}
+		}
 		sc.Note = "family=providers"
 	}
 	return sc
@@ -568,6 +585,46 @@ func (c18) Check(out *sim.Outcome, ri *RunInfo) []Violation {
 				continue
 			}
 			checkNames(fmt.Sprintf("hop ttl %d", h.TTL), a, h.ReverseDns)
+		}
+		// a look-up that succeeded is not undone by another look-up for the same address that failed: some
+		// hop or destination carrying the address shows the names (whichever occurrence each look-up served)
+		shown := map[string]map[string]bool{}
+		note := func(a netip.Addr, names []string) {
+			k := dnsKey(a)
+			if shown[k] == nil {
+				shown[k] = map[string]bool{}
+			}
+			shown[k][fmt.Sprint(names)] = true
+		}
+		for _, r := range cs.Enriched.Traceroute.Runs {
+			for _, h := range r.Hops {
+				if a, ok := netip.AddrFromSlice(h.IPAddress); ok {
+					note(a, h.ReverseDns)
+				}
+			}
+			if a, ok := netip.AddrFromSlice(r.Destination.IPAddress); ok {
+				note(a, r.Destination.ReverseDns)
+			}
+		}
+		for k, calls := range byAddr {
+			if shown[k] == nil {
+				continue
+			}
+			var okLists []string
+			any := false
+			for _, d := range calls {
+				if d.Err == "" && len(d.Names) == 0 {
+					any = true // the resolver also answered "no names" for this address: an empty hop is one of its answers
+				}
+				if d.Err == "" && len(d.Names) > 0 {
+					okLists = append(okLists, fmt.Sprint(d.Names))
+					any = any || shown[k][fmt.Sprint(d.Names)]
+				}
+			}
+			if len(okLists) > 0 && !any {
+				vs = append(vs, Violation{Rule: "C18.lookup-undone", Detail: fmt.Sprintf("the resolver answered %v for %s during this call, but no hop or destination with that address carries the names (what they carry: %v): a look-up that failed wiped out one that succeeded", okLists, k, shown[k]), Facts: facts("family", family)})
+				break
+			}
 		}
 		if cs.C.Target != "" {
 			checkNames("destination", mustParse(cs.C.Target), run.Destination.ReverseDns)
